@@ -157,7 +157,12 @@ class Shape(object):
             if is_param:
                 # positional: a parameter rename does not change the shape
                 pid = '%sarg%d' % ('^' * up, g.params.index(root.id))
-                return 'param:%s' % '.'.join([pid] + attrs[::-1][:2])
+                # what every call site hands over as an attribute of one of
+                # its own values (f(x.id) ... p) is the same parameter as
+                # the attribute read here (f(x) ... p.id)
+                pre = self._caller_attrs(g, root.id) if g is self.f else []
+                return 'param:%s' % '.'.join(
+                    [pid] + (pre + attrs[::-1])[:2])
             if root.id in self.loop_vars:
                 return 'loopvar'
             ds = self._defs.get(root.id, [])
@@ -169,6 +174,28 @@ class Shape(object):
             return 'expr(%s,%s)' % (self.operand(e.left, depth + 1),
                                     self.operand(e.right, depth + 1))
         return 'expr'
+
+    def _caller_attrs(self, g, pname):
+        from psa.rules import common as C
+        chains = set()
+        for caller in self.ctx.cg.callers.get(g, ()):
+            for s_ in self.ctx.cg.calls_in(caller):
+                if g not in s_.callees:
+                    continue
+                a = C.arg_for_param(s_.node, g, pname)
+                ch = []
+                while isinstance(a, ast.Attribute):
+                    ch.append(a.attr)
+                    a = a.value
+                if not isinstance(a, ast.Name):
+                    return []
+                chains.add(tuple(ch[::-1]))
+        if len(chains) == 1:
+            ch = list(chains.pop())
+            # the receiver itself (self.x passed from a method) is not an
+            # attribute of the value
+            return ch
+        return []
 
     @staticmethod
     def _transparent(d, name):
